@@ -51,7 +51,7 @@ func init() {
 		},
 		Cases: func(tier string, seed uint64) int {
 			if tier == "thorough" {
-				return 200000
+				return 2000000
 			}
 			return 4000
 		},
@@ -396,7 +396,46 @@ func traceCase(r *gen.Rand) Input {
 		dev = nil
 	}
 	limit := []int{-1, 0, 1, 2, 5, 10, 50}[r.Intn(7)]
-	return Input{Kind: "trace", Src: strings.Join(lines, "\n"), Class: rk.class, File: file, Limit: limit, Want: want, Dev: dev}
+	in := Input{Kind: "trace", Src: strings.Join(lines, "\n"), Class: rk.class, File: file, Limit: limit, Want: want, Dev: dev}
+	if r.Chance(1, 3) {
+		// the error is caught at top level, other errors with traces of their own
+		// are raised and caught, then the first one is thrown again: it must still
+		// carry the frames of the place where it was raised
+		in.Src = "try {\n" + in.Src + "\n} catch ($e) {\n" +
+			[]string{
+				"  try { null.x } catch ($1) {}\n",
+				"  try { (function deeper() { (function deepest() { undefinedFunction() })() })() } catch ($1) {}\n",
+				"  try { [1].forEach(function cb() { new Array(-1) }) } catch ($1) {} try { eval('(') } catch ($2) {}\n",
+				"  var $s = []; for (var $i = 0; $i < 3; $i++) { try { $s.x.y } catch ($1) { $s.push($1.stack) } }\n",
+			}[r.Intn(4)] + "  throw $e\n}"
+		in.Want = shiftLines(in.Want, shown)
+		in.Dev = shiftLines(in.Dev, shown)
+	}
+	return in
+}
+
+var frameLocRe = regexp.MustCompile(`:(\d+):(\d+)\)?$`)
+
+// shiftLines moves every frame position of the program one line down.
+func shiftLines(frames []string, shown string) []string {
+	if frames == nil {
+		return nil
+	}
+	out := make([]string, len(frames))
+	for i, f := range frames {
+		out[i] = f
+		if !strings.Contains(f, shown+":") {
+			continue
+		}
+		m := frameLocRe.FindStringSubmatchIndex(f)
+		if m == nil {
+			continue
+		}
+		var ln int
+		fmt.Sscanf(f[m[2]:m[3]], "%d", &ln)
+		out[i] = f[:m[2]] + fmt.Sprint(ln+1) + f[m[3]:]
+	}
+	return out
 }
 
 var frameRe = regexp.MustCompile(`(?m)^\s+(at .*)$`)
